@@ -100,6 +100,9 @@ def cases(draw, tier):
             "close": draw(st.booleans()),
             "rot": draw(st.integers(0, nv - 1)),
             "rev": draw(st.booleans()),
+            "opts": draw(st.sampled_from([{}, {}, {"atol": 0.},
+                                          {"atol": 1e-12}, {"nprint": 1},
+                                          {"nprint": 7, "atol": 1e-10}])),
             # dyadic offsets up to 2^26 (UTM-like: the polygon is tiny
             # compared with its distance to the origin)
             "shift": [draw(st.sampled_from([0., 1., -8., 0.5, 1024.,
@@ -113,10 +116,13 @@ def cases(draw, tier):
                      draw(st.sampled_from([-4.25, -5., -3.75]))]}
 
 
+OPTS = {}
+
+
 def call(pts, poly):
     return gutils.points_inside_polygon(
         np.ascontiguousarray(pts, dtype=np.float64),
-        np.ascontiguousarray(poly, dtype=np.float64)).astype(bool)
+        np.ascontiguousarray(poly, dtype=np.float64), **OPTS).astype(bool)
 
 
 def oracle(case):
@@ -127,6 +133,11 @@ def oracle(case):
     labels = [f"kind:{case['kind']}"]
     P = np.array(poly)
     Q = np.array(pts)
+    # options that do not change the rule away from the boundary
+    OPTS.clear()
+    OPTS.update(case.get("opts", {}))
+    if OPTS:
+        labels.append("options:" + ",".join(sorted(OPTS)))
     if case["close"]:
         Pc = np.vstack([P, P[:1]])
         labels.append("closed")
@@ -154,7 +165,8 @@ def oracle(case):
     # stale values gives the same answers
     buf = np.ones(len(Q), dtype=np.int32)
     r_buf = gutils.points_inside_polygon(
-        np.ascontiguousarray(Q), np.ascontiguousarray(Pc), inside=buf)
+        np.ascontiguousarray(Q), np.ascontiguousarray(Pc), inside=buf,
+        **OPTS)
     if not np.array_equal(np.asarray(r_buf).astype(bool), res):
         k = int(np.argmax(np.asarray(r_buf).astype(bool) != res))
         raise Violation(
@@ -164,12 +176,13 @@ def oracle(case):
     # the same point and polygon objects edited in place, then used again
     Q2 = np.ascontiguousarray(Q.copy())
     P2 = np.ascontiguousarray(Pc.copy())
-    r_a = gutils.points_inside_polygon(Q2, P2)
+    r_a = gutils.points_inside_polygon(Q2, P2, **OPTS)
     Q2 += 0.5
     P2 += 0.5
-    r_b = gutils.points_inside_polygon(Q2, P2).astype(bool)
-    if case["kind"] == "lattice" and not np.array_equal(r_b, res):
-        k = int(np.argmax(r_b != res))
+    r_b = gutils.points_inside_polygon(Q2, P2, **OPTS).astype(bool)
+    if case["kind"] == "lattice" and judged and \
+            not np.array_equal(r_b[judged], res[judged]):
+        k = judged[int(np.argmax(r_b[judged] != res[judged]))]
         raise Violation(f"second call after the point and polygon arrays "
                         f"were shifted in place changes the answer for "
                         f"point {pts[k]}")
